@@ -3,10 +3,11 @@ import RustCcModel.Proofs.CountsOps4
 updates, buffer replacement, bulk updates, `takeField`. -/
 namespace RustCc
 open World
+variable {ex : Bool}
 
-/-- Close `Counts w'` from `CountsH w'' []` where `w'` differs from `w''` in fields the invariant does not read. -/
+/-- Close `CountsG ex w'` from `CountsH ex w'' []` where `w'` differs from `w''` in fields the invariant does not read. -/
 macro "counts_congr " h:term : tactic =>
-  `(tactic| (refine CountsH.toCounts (CountsH.congr $h ?_ ?_ ?_ ?_ ?_ ?_ ?_) <;> rfl))
+  `(tactic| (refine CountsH.toCounts0 (CountsH.congr $h ?_ ?_ ?_ ?_ ?_ ?_ ?_) <;> rfl))
 
 /-! ### More blocks: allocation, table store with replacement, leaky field update, buffer replacement -/
 
@@ -25,15 +26,15 @@ theorem fieldRefs_alloc (w : World) (o : Obj) (ab : Nat) (x : Id) (ho : fieldsOf
   simp [Heap.set, ho]
 
 /-- Allocation of a box with empty pointer fields at the next identity: `o.rc` pointers to it are in flight. -/
-theorem CountsH.alloc {w : World} {E : List Id} (h : CountsH w E) (o : Obj) (ab : Nat) (ho : fieldsOf o = []) :
-    CountsH { w with next := w.next + 1, heap := w.heap.set w.next o, allocBytes := ab } (List.replicate o.rc w.next ++ E) := by
+theorem CountsH.alloc {w : World} {E : List Id} (h : CountsH ex w E) (o : Obj) (ab : Nat) (ho : fieldsOf o = []) :
+    CountsH ex { w with next := w.next + 1, heap := w.heap.set w.next o, allocBytes := ab } (List.replicate o.rc w.next ++ E) := by
   have hr : ∀ x, refs { w with next := w.next + 1, heap := w.heap.set w.next o, allocBytes := ab } x = refs w x := by
     intro x
     unfold refs
     rw [fieldRefs_alloc w o ab x ho]
   have hE : E.count w.next = 0 := Nat.eq_zero_of_add_eq_zero_left (h.fresh w.next (Nat.le_refl _))
   have hR : refs w w.next = 0 := Nat.eq_zero_of_add_eq_zero_right (h.fresh w.next (Nat.le_refl _))
-  refine ⟨?_, ?_, ?_, ?_, ?_⟩
+  refine ⟨?_, ?_, ?_, ?_, ?_, ?_⟩
   · intro x
     rw [hr, List.count_append, count_replicate_self]
     by_cases hxn : w.next = x
@@ -41,6 +42,14 @@ theorem CountsH.alloc {w : World} {E : List Id} (h : CountsH w E) (o : Obj) (ab 
       simp [Heap.set]; omega
     · have hxn' : ¬ x = w.next := fun e => hxn e.symm
       have := h.le x
+      simp [Heap.set, hxn', hxn]; omega
+  · intro hex x
+    rw [hr, List.count_append, count_replicate_self]
+    by_cases hxn : w.next = x
+    · subst hxn
+      simp [Heap.set]; omega
+    · have hxn' : ¬ x = w.next := fun e => hxn e.symm
+      have := h.ge hex x
       simp [Heap.set, hxn', hxn]; omega
   · intro x hx
     have hx' : w.next + 1 ≤ x := hx
@@ -57,7 +66,8 @@ theorem CountsH.alloc {w : World} {E : List Id} (h : CountsH w E) (o : Obj) (ab 
     exact h.mfresh x (Nat.le_of_succ_le hx')
 
 /-- `H[k] = Some(cc)` for a pointer in flight; a previous entry is dropped by a frame; out of range: leaked. -/
-theorem CountsH.putH {w : World} {E : List Id} {y : Id} (h : CountsH w (y :: E)) (k : Nat) : CountsH (w.putH k y) E := by
+theorem CountsH.putH {w : World} {E : List Id} {y : Id} (h : CountsH ex w (y :: E)) (k : Nat)
+    (hkx : ex = true → k < w.H.length) : CountsH ex (w.putH k y) E := by
   unfold World.putH
   split
   · rename_i old hold
@@ -65,9 +75,9 @@ theorem CountsH.putH {w : World} {E : List Id} {y : Id} (h : CountsH w (y :: E))
       cases Nat.lt_or_ge k w.H.length with
       | inl h => exact h
       | inr hge => simp [World.getH, List.getD_eq_getElem?_getD, List.getElem?_eq_none hge] at hold
-    have h1 : CountsH (w.setH k none) (y :: old :: E) :=
+    have h1 : CountsH ex (w.setH k none) (y :: old :: E) :=
       (h.takeTable hold).of_count (by intro z; simp [List.count_cons]; omega)
-    have h2 : CountsH ((w.setH k none).setH k (some y)) (old :: E) :=
+    have h2 : CountsH ex ((w.setH k none).setH k (some y)) (old :: E) :=
       h1.putTable (by simp [World.getH, World.setH, List.getD_eq_getElem?_getD, hk]) (by simpa [World.setH] using hk)
     have e : (w.setH k none).setH k (some y) = w.setH k (some y) := by simp [World.setH, List.set_set]
     rw [e] at h2
@@ -78,14 +88,17 @@ theorem CountsH.putH {w : World} {E : List Id} {y : Id} (h : CountsH w (y :: E))
     | inr hge =>
       have e : w.setH k (some y) = w := by simp [World.setH, List.set_eq_of_length_le hge]
       rw [e]
-      exact h.forget (by intro z; simp [List.count_cons])
+      cases ex with
+      | true => exact absurd (hkx rfl) (Nat.not_lt.2 hge)
+      | false => exact h.forget (by intro z; simp [List.count_cons])
 
 /-- Field update that may lose pointers (overwriting without dropping), never creates one out of nothing. -/
 theorem CountsH.updFields_le {w : World} {E : List Id} (t : Id) (F : Obj → Obj) (inn : List Id)
-    (h : CountsH w (inn ++ E)) (ht : t < w.next)
+    (h : CountsH ex w (inn ++ E)) (ht : t < w.next)
     (hF : ∀ x, (fieldsOf (F (w.heap t))).count x ≤ (fieldsOf (w.heap t)).count x + inn.count x)
+    (hFe : ex = true → ∀ x, (fieldsOf (F (w.heap t))).count x = (fieldsOf (w.heap t)).count x + inn.count x)
     (hrc : (F (w.heap t)).rc = (w.heap t).rc) (hbl : (F (w.heap t)).boxLive = (w.heap t).boxLive) :
-    CountsH (w.upd t F) E := by
+    CountsH ex (w.upd t F) E := by
   have e : ∀ x, refs (w.upd t F) x ≤ refs w x + inn.count x := by
     intro x
     have h1 := refs_upd w t F x ht
@@ -96,10 +109,17 @@ theorem CountsH.updFields_le {w : World} {E : List Id} (t : Id) (F : Obj → Obj
     by_cases hx : x = t
     · subst hx; simp [hrc, hbl]
     · simp [upd, Heap.set, hx]
-  refine ⟨?_, ?_, h.frames, h.pcb, h.mfresh⟩
+  refine ⟨?_, ?_, ?_, h.frames, h.pcb, h.mfresh⟩
   · intro x
     have h1 := h.le x
     have h2 := e x
+    rw [(hheap x).1]
+    simp only [List.count_append] at h1 ⊢
+    omega
+  · intro hex x
+    have h1 := h.ge hex x
+    have h2 := refs_upd w t F x ht
+    have h3 := hFe hex x
     rw [(hheap x).1]
     simp only [List.count_append] at h1 ⊢
     omega
@@ -111,16 +131,16 @@ theorem CountsH.updFields_le {w : World} {E : List Id} (t : Id) (F : Obj → Obj
     omega
 
 /-- Replacing the buffer by identities that are allocated. -/
-theorem CountsH.setPc {w : World} {E : List Id} (h : CountsH w E) (l : List Id) (hl : ∀ x ∈ l, x < w.next) :
-    CountsH { w with pc := l } E :=
+theorem CountsH.setPc {w : World} {E : List Id} (h : CountsH ex w E) (l : List Id) (hl : ∀ x ∈ l, x < w.next) :
+    CountsH ex { w with pc := l } E :=
   h.same (fun _ => rfl) (fun _ => rfl) rfl (fun _ hf => hf) (fun x hx => Or.inr (hl x hx)) h.mfresh
 
 /-- A change of one object that raises its count by `n`: `n` more pointers in flight. -/
-theorem CountsH.incrRcF {w : World} {E : List Id} (h : CountsH w E) (y : Id) (n : Nat) (F : Obj → Obj) (hy : y < w.next)
+theorem CountsH.incrRcF {w : World} {E : List Id} (h : CountsH ex w E) (y : Id) (n : Nat) (F : Obj → Obj) (hy : y < w.next)
     (hF : fieldsOf (F (w.heap y)) = fieldsOf (w.heap y)) (hrc : (F (w.heap y)).rc = (w.heap y).rc + n)
     (hbl : (F (w.heap y)).boxLive = (w.heap y).boxLive) :
-    CountsH (w.upd y F) (List.replicate n y ++ E) := by
-  refine ⟨?_, ?_, h.frames, h.pcb, h.mfresh⟩
+    CountsH ex (w.upd y F) (List.replicate n y ++ E) := by
+  refine ⟨?_, ?_, ?_, h.frames, h.pcb, h.mfresh⟩
   · intro x
     rw [refs_upd_same w y _ x hF, List.count_append, count_replicate_self]
     by_cases hxy : y = x
@@ -130,6 +150,15 @@ theorem CountsH.incrRcF {w : World} {E : List Id} (h : CountsH w E) (y : Id) (n 
     · have hxy' : ¬ x = y := fun e => hxy e.symm
       have := h.le x
       simp [upd, Heap.set, hxy', hxy]; omega
+  · intro hex x
+    rw [refs_upd_same w y _ x hF, List.count_append, count_replicate_self]
+    by_cases hxy : y = x
+    · subst hxy
+      have := h.ge hex y
+      simp [hrc]; omega
+    · have hxy' : ¬ x = y := fun e => hxy e.symm
+      have := h.ge hex x
+      simp [upd, Heap.set, hxy', hxy]; omega
   · intro x hx
     have hx' : w.next ≤ x := hx
     have := h.fresh x hx'
@@ -137,8 +166,8 @@ theorem CountsH.incrRcF {w : World} {E : List Id} (h : CountsH w E) (y : Id) (n 
     rw [refs_upd_same w y _ x hF, List.count_append, count_replicate_self]
     simp [hxy]; omega
 
-theorem CountsH.freeAll (c : Cfg) : ∀ (l : List Id) {w : World}, CountsH w [] → (∀ x ∈ l, (w.heap x).rc = 0) →
-    CountsH (l.foldl (fun w x => (if c.weak then w.dropMetadata x else w).freeBox x) w) []
+theorem CountsH.freeAll (c : Cfg) : ∀ (l : List Id) {w : World}, CountsH ex w [] → (∀ x ∈ l, (w.heap x).rc = 0) →
+    CountsH ex (l.foldl (fun w x => (if c.weak then w.dropMetadata x else w).freeBox x) w) []
   | [], _, h, _ => h
   | x :: l, w, h, hz => by
     simp only [List.foldl_cons]
@@ -152,10 +181,10 @@ theorem CountsH.freeAll (c : Cfg) : ∀ (l : List Id) {w : World}, CountsH w [] 
       split <;> (rw [freeBox_rc]; split <;> simp [hy0])
 
 theorem CountsH.updAll_same {E : List Id} (F : Obj → Obj) (hF : ∀ o, fieldsOf (F o) = fieldsOf o) (hrc : ∀ o, (F o).rc = o.rc)
-    (hbl : ∀ o, (F o).boxLive = o.boxLive) : ∀ (l : List Id) {w : World}, CountsH w E → CountsH (w.updAll l F) E
+    (hbl : ∀ o, (F o).boxLive = o.boxLive) : ∀ (l : List Id) {w : World}, CountsH ex w E → CountsH ex (w.updAll l F) E
   | [], _, h => h
   | x :: l, w, h => by
-    have h1 : CountsH (w.upd x F) E := h.upd_same x F (hF _) (hrc _)
+    have h1 : CountsH ex (w.upd x F) E := h.upd_same x F (hF _) (hrc _)
     exact CountsH.updAll_same F hF hrc hbl l h1
 
 theorem firstSome_count : ∀ (l : List (Option Id)) (y : Id) (s : List (Option Id)), firstSome l = some (y, s) →
